@@ -486,6 +486,39 @@ func genSiblings(r *hx.Rng) *gScen {
 	return g.sc
 }
 
+// a lazy holder whose FIRST creation fails (Init fails once) and which nobody needs during the start: after Run it is looked
+// up until a retried creation succeeds. Its points — slices, single values, by name — must then hold what a first-time
+// population would have given them (the property nodes of the definition survive the failed attempt).
+func genRetry(r *hx.Rng) *gScen {
+	g := newBuilder(r)
+	np := 2 + r.Intn(4)
+	for i := 0; i < np; i++ {
+		g.addNode(g.randType(func(u utInfo) bool { return len(u.ifs) > 0 && !u.pp && !u.lazy && !u.runner }), r.P(1, 3))
+	}
+	nh := 1 + r.Intn(2)
+	for j := 0; j < nh; j++ {
+		h := g.addNode([]int{5, 7, 12}[r.Intn(3)], r.P(1, 2))
+		g.sc.nodes[h].flt = fltInitOnce
+		g.sc.nodes[h].slots["S0"] = "w"
+		if r.P(1, 2) {
+			g.sc.nodes[h].slots["S1"] = "w" + []string{"", ",required=false"}[r.Intn(2)]
+		}
+		if r.P(1, 2) {
+			g.sc.nodes[h].slots["X0"] = "w"
+		}
+		if r.P(1, 2) {
+			g.sc.nodes[h].slots["A0"] = "w" + g.nameOf(r.Intn(np))
+		}
+		if r.P(1, 3) {
+			g.sc.nodes[h].slots["AS0"] = "fF1,returns=*,required=false"
+		}
+		if r.P(1, 3) {
+			g.randomSlots(h, 1+r.Intn(2))
+		}
+	}
+	return g.sc
+}
+
 // several func-tag points with `returns` on ONE holder, over providers that expose the methods with different results
 func genFunc(r *hx.Rng) *gScen {
 	g := newBuilder(r)
@@ -830,8 +863,12 @@ func graphGen(rng *hx.Rng, n int, tier string, w *hx.Writer) {
 			count++
 		case k == 16:
 			sc := genFunc(r)
+			tag := "func"
+			if r.P(1, 3) {
+				sc, tag = genRetry(r), "retry"
+			}
 			if active() {
-				emitGraph(sc, []string{"func"}, w)
+				emitGraph(sc, []string{tag}, w)
 			}
 			count++
 		case k < 18:
